@@ -193,6 +193,7 @@ func (c17) Gen(r *sim.Rand, c *sim.Case, tier string) {
 	c.Order = orderPolicy(r)
 	c.OrderSeed = r.Uint64()
 	c.Cfg["preempt"] = preemptMean(r)
+	c.Cfg["log"] = btoiP(r.Chance(0.3)) // the library's logging switched on (into a sink): its formatting and its clock reads run inside the tasks
 }
 
 // ---- execution -----------------------------------------------------------------------
@@ -657,7 +658,8 @@ func (r *c17run) model() porcupine.Model {
 }
 
 func (p c17) Exec(c *sim.Case, env *Env) []sim.Violation {
-	setLogging(false)
+	setLogging(c.C("log") == 1)
+	defer setLogging(false)
 	document.VerifResetProcessState()
 	dir := env.MkTmp("c17")
 	defer os.RemoveAll(dir)
